@@ -43,6 +43,7 @@ func instanceDescFields(pkg *packages.Package) (*types.Named, []*types.Var) {
 func runC13(c *core.Ctx) {
 	c.Rule("R1", "every InstanceDesc field is CMP, VOL or DERIVED for the equality shortcut; VOL = fields refreshed into cached subrings (both getters)", 10)
 	c.Rule("R2", "index builders and shard membership read no volatile field", 8)
+	c.Rule("R7", "the token→instance map shared with subrings is immutable (replaced, never modified, never handed out)", 1)
 	c.Rule("R3", "index replacement resets both caches and the topology stamp; cache fills guarded by stamp equality", 4)
 	c.Rule("R4", "cache keys are complete and agree between getter and setter", 4)
 	c.Rule("R5", "PartitionRing immutable after construction; fresh cache; watcher swaps under lock", 3)
@@ -63,6 +64,7 @@ func runC13(c *core.Ctx) {
 	c13Caches(c, pkg)
 	c13Partition(c, pkg)
 	c13Validity(c, pkg)
+	c13ImmutableIndex(c, pkg, "R7")
 }
 
 // c13Classify extracts the class of every field from RingCompare / setInstanceIDs.
@@ -743,4 +745,140 @@ func c13Fills(c *core.Ctx, pkg *packages.Package, R string) {
 		res := t.Run()
 		c.Check(res.OK() && len(stores) == 1, R, "fill="+s.cache, f.Pos(), "cache fill reachable only when the ring's topology stamp equals the stamp the subring was computed from: "+res.Summary(), res.Rows)
 	}
+}
+
+// c13ImmutableIndex: Ring.ringInstanceByToken is shared by reference between a ring and every subring
+// built from it ("immutable by design"). The rule makes that design checkable: the field is only ever
+// (a) assigned a map freshly built by Desc.getTokensInfo or shared from another Ring, (b) read by
+// indexing, len or range; it is never written through (element store, delete, clear), never handed to
+// a function and its address is never taken — recycling or patching the map in place would change the
+// answers of subrings that were computed earlier (shared by C13.R7, C14.R6 and C05.R7).
+func c13ImmutableIndex(c *core.Ctx, pkg *packages.Package, R string) {
+	ringT := an.LookupType(pkg, "Ring")
+	if ringT == nil {
+		c.Miss(R, "type=Ring", "not found")
+		return
+	}
+	fld := fieldOf(ringT, "ringInstanceByToken")
+	if fld == nil {
+		c.Miss(R, "field=Ring.ringInstanceByToken", "not found")
+		return
+	}
+	info := pkg.TypesInfo
+	var bad []string
+	var badPos token.Pos
+	reads, assigns := 0, 0
+	for _, top := range an.Funcs(pkg) {
+		bodies := append([]*an.Fn{top}, top.AllLits()...)
+		for _, fn := range bodies {
+			var stack []ast.Node
+			ast.Inspect(fn.Body(), func(n ast.Node) bool {
+				if n == nil {
+					stack = stack[:len(stack)-1]
+					return true
+				}
+				if lit, ok := n.(*ast.FuncLit); ok && lit != fn.Lit {
+					stack = append(stack, n)
+					return true
+				}
+				stack = append(stack, n)
+				sel, ok := n.(*ast.SelectorExpr)
+				if !ok || !an.FieldSel(info, sel, fld) {
+					return true
+				}
+				// classify by the enclosing nodes
+				var parent, grand ast.Node
+				k := len(stack) - 2
+				for k >= 0 {
+					if _, isParen := stack[k].(*ast.ParenExpr); !isParen {
+						break
+					}
+					k--
+				}
+				if k >= 0 {
+					parent = stack[k]
+				}
+				if k >= 1 {
+					grand = stack[k-1]
+				}
+				fail := func(why string) {
+					bad = append(bad, fmt.Sprintf("%s: %s", fn.Name, why))
+					badPos = sel.Pos()
+				}
+				switch p := parent.(type) {
+				case *ast.AssignStmt:
+					isLHS := false
+					for i, l := range p.Lhs {
+						if an.Unparen(l) == ast.Expr(sel) {
+							isLHS = true
+							if len(p.Lhs) == len(p.Rhs) {
+								rc := fn.Canon(p.Rhs[i])
+								if strings.HasSuffix(rc, ".getTokensInfo()") || strings.HasSuffix(rc, ".ringInstanceByToken") {
+									assigns++
+								} else {
+									fail("assigned " + rc + " (must be a map freshly built by getTokensInfo() or shared from another Ring)")
+								}
+							} else {
+								fail("assigned from a multi-value expression")
+							}
+						}
+					}
+					if !isLHS {
+						reads++ // x := r.ringInstanceByToken (alias): conservatively accepted only as a plain copy into a Ring field, checked where it is stored
+						if len(p.Lhs) == 1 {
+							if _, isSel := an.Unparen(p.Lhs[0]).(*ast.SelectorExpr); !isSel {
+								fail("aliased into a local (" + fn.Canon(p.Lhs[0]) + "): writes through the alias cannot be excluded")
+							}
+						}
+					}
+				case *ast.KeyValueExpr:
+					reads++ // composite literal of a Ring: shared by reference
+				case *ast.IndexExpr:
+					if an.Unparen(p.X) != ast.Expr(sel) {
+						reads++
+						break
+					}
+					if as, ok := grand.(*ast.AssignStmt); ok {
+						for _, l := range as.Lhs {
+							if an.Unparen(l) == ast.Expr(p) {
+								fail("element store into the shared map")
+							}
+						}
+					}
+					if _, ok := grand.(*ast.IncDecStmt); ok {
+						fail("element update in the shared map")
+					}
+					reads++
+				case *ast.RangeStmt:
+					reads++
+				case *ast.CallExpr:
+					o := an.Callee(info, p)
+					switch {
+					case an.ObjIs(o, "", "len"):
+						reads++
+					case an.ObjIs(o, "", "delete") || an.ObjIs(o, "", "clear"):
+						fail(o.Name() + " on the shared map")
+					default:
+						fail("handed to " + fn.Canon(p.Fun) + " (the callee may modify or keep it)")
+					}
+				case *ast.UnaryExpr:
+					if p.Op == token.AND {
+						fail("address taken")
+					} else {
+						reads++
+					}
+				case *ast.BinaryExpr:
+					reads++ // comparison with nil
+				default:
+					fail(fmt.Sprintf("used in an unrecognised position (%T)", parent))
+				}
+				return true
+			})
+		}
+	}
+	if len(bad) > 0 {
+		c.Viol(R, "field=Ring.ringInstanceByToken:immutable", badPos, fmt.Sprintf("the token→instance map shared with subrings may be modified or escape: %v", head(bad, 4)))
+		return
+	}
+	c.Check(assigns >= 1 && reads >= 3, R, "field=Ring.ringInstanceByToken:immutable", pkg.Syntax[0].Pos(), fmt.Sprintf("%d assignments (fresh map from getTokensInfo() or shared from a Ring), %d read-only uses; no element store, delete, clear, alias, address-of or hand-over to a function", assigns, reads), assigns+reads)
 }
